@@ -201,3 +201,181 @@ package decimal128
 //@ ensures u256(n)*o < W*W*W*W ==> u256(p) == u256(n)*o
 //@ props C20
 
+
+// ---------------------------------------------------------------------------
+// decimal.go: bit-level encoding (bit-vector model). The observers special,
+// isnan, isinf, sign, coef, bexp are the IEEE 754-2008 BID decoder of the
+// bit-vector prelude (written from the standard, not from this package).
+// ---------------------------------------------------------------------------
+
+//@ lemma decimal_facts
+//@ mode bv
+//@ forall d decimal
+//@ holds (isnan(d) ==> special(d)) && (isinf(d) ==> special(d)) && (special(d) ==> (isnan(d) != isinf(d)))
+//@   && 0 <= coef(d) && 0 <= bexp(d)
+//@   && (!special(d) ==> coef(d) <= M && bexp(d) <= 12287)
+//@ export
+//@ props C04 C12 C15 C19
+
+//@ func Decimal.decompose
+//@ mode bv
+//@ returns (sig, exp)
+//@ ensures !special(d) ==> u128(sig) == coef(d) && exp == bexp(d)
+//@ ensures u128(sig) <= M && 0 <= exp && exp <= 16383
+//@ props C12 C20
+
+//@ func compose
+//@ mode bv
+//@ returns (r)
+//@ requires u128(sig) <= M && 0 <= exp && exp <= 12287
+//@ ensures !special(r) && sign(r) == neg && coef(r) == u128(sig) && bexp(r) == exp
+//@ props C12 C20
+
+//@ func Decimal.isSpecial
+//@ mode bv
+//@ ensures result == special(d)
+//@ props C15 C20
+
+//@ func Decimal.isInf
+//@ mode bv
+//@ ensures result == isinf(d)
+//@ props C15 C20
+
+//@ func Decimal.IsNaN
+//@ mode bv
+//@ ensures result == isnan(d)
+//@ props C15 C20
+
+//@ func Decimal.Signbit
+//@ mode bv
+//@ ensures result == sign(d)
+//@ props C15 C20
+
+//@ func Decimal.IsZero
+//@ mode bv
+//@ ensures result <==> (!special(d) && coef(d) == 0)
+//@ props C04 C15 C20
+
+//@ func inf
+//@ mode bv
+//@ returns (r)
+//@ ensures isinf(r) && special(r) && !isnan(r) && sign(r) == neg
+//@ ensures lo(r) == 0 && hi(r) == ite(neg, 0xf800000000000000, 0x7800000000000000)
+//@ props C15 C19 C20
+
+//@ func zero
+//@ mode bv
+//@ returns (r)
+//@ ensures !special(r) && coef(r) == 0 && bexp(r) == 0 && sign(r) == neg
+//@ ensures lo(r) == 0 && hi(r) == ite(neg, 0x8000000000000000, 0)
+//@ props C15 C19 C20
+
+//@ func one
+//@ mode bv
+//@ returns (r)
+//@ ensures !special(r) && coef(r) == 1 && bexp(r) == 6176 && sign(r) == neg
+//@ props C15 C20
+
+//@ func nan
+//@ mode bv
+//@ returns (r)
+//@ ensures isnan(r) && special(r) && !isinf(r) && !sign(r)
+//@ ensures hi(r) == 0x7c00000000000000
+//@ ensures op < 256 && lhs < 256 && rhs < 256 ==> lo(r) == op + 256*lhs + 65536*rhs
+//@ props C15 C19 C20
+
+//@ func Abs
+//@ mode bv
+//@ returns (r)
+//@ ensures !sign(r) && special(r) == special(d) && isnan(r) == isnan(d) && isinf(r) == isinf(d)
+//@ ensures coef(r) == coef(d) && bexp(r) == bexp(d) && lo(r) == lo(d)
+//@ props C15 C20
+
+//@ func Decimal.Neg
+//@ mode bv
+//@ returns (r)
+//@ ensures sign(r) == !sign(d) && special(r) == special(d) && isnan(r) == isnan(d) && isinf(r) == isinf(d)
+//@ ensures coef(r) == coef(d) && bexp(r) == bexp(d) && lo(r) == lo(d)
+//@ props C15 C20
+
+//@ func Decimal.Payload
+//@ mode bv
+//@ returns (p)
+//@ panics !isnan(d)
+//@ ensures p == lo(d)
+//@ props C15 C20
+
+// ---------------------------------------------------------------------------
+// rounding.go: the rounding kernel.
+//
+// V is a logical variable: the exact non-negative magnitude being rounded, as a
+// real number; rs(V, e) is V expressed in units of 10^e (e a biased exponent).
+// RS(x, sig, trunc, digit) says x = sig + (digit + g)/10 where g = 0 if
+// trunc == 0, 0 < g < 1 if trunc == 1 and -1 < g < 0 if trunc == -1.
+// RndOK(rm, neg, x, c, e) says c x 10^e is the member of the format that mode
+// rm selects for the magnitude x (in units of 10^e) of a value with sign neg.
+// ---------------------------------------------------------------------------
+
+//@ func RoundingMode.round
+//@ returns (rsig, rexp)
+//@ logical V real
+//@ requires V >= 0 && rm <= 5 && u128(sig) <= M && 0 <= exp && exp <= 32100
+//@ requires RS(rs(V, exp), u128(sig), trunc, digit)
+//@ requires shift ==> ((digit != 0 || trunc != 0) ==> (u128(sig) >= B110 || exp == 0))
+//@ ensures shift ==> RndOK(rm, neg, rs(V, rexp), u128(rsig), rexp)
+//@ ensures shift && rexp > 12287 && (digit != 0 || trunc != 0) ==> 10*u128(rsig) > M
+//@ ensures u128(rsig) <= M && rexp >= 0 && rexp <= exp + 1 && rexp >= exp - 1
+//@ ensures !shift ==> (rexp == exp && QuantOK(rm, neg, rs(V, exp), u128(rsig)))
+//@   || (rexp == exp + 1 && u128(sig) == M && u128(rsig) == B110 && QuantOK(rm, neg, rs(V, exp), M + 1))
+//@ ensures digit == 0 && trunc == 0 ==> rsig == sig && rexp == exp
+//@ loop 1: invariant u128(sig) <= M && 0 <= exp && exp <= 32101 && RS(rs(V, exp), u128(sig), trunc, digit)
+//@ loop 1: invariant (shift == old(shift) && sig == old(sig) && exp == old(exp) && trunc == old(trunc) && digit == old(digit))
+//@   || (!shift && u128(old(sig)) == M && u128(sig) == B110 - 1 && digit == 9 && trunc == 1 && exp == old(exp) + 1
+//@       && (rm <= 1 || rm == 3 || (rm == 4 && neg) || (rm == 5 && !neg))
+//@       && (old(shift) ==> RndOK(rm, neg, rs(V, exp), B110, exp))
+//@       && (!old(shift) ==> QuantOK(rm, neg, rs(V, old(exp)), M + 1)))
+//@ loop 1: decreases ite(u128(sig) == M, 1, 0)
+//@ loop 2: invariant u128(sig) <= M && 0 <= exp && exp <= 32101 && RS(rs(V, exp), u128(sig), trunc, digit) && (u128(sig) >= B110 || exp == 0)
+//@ loop 2: decreases exp
+//@ loop 3: invariant 0 <= exp && exp <= 32101 &&
+//@    ((u128(sig) <= M && RS(rs(V, exp), u128(sig), trunc, digit) && (u128(sig) >= B110 || exp == 0))
+//@     || (u128(sig) == M + 1 && M < rs(V, exp) && rs(V, exp) < M + 1 && exp >= old(exp) - 1))
+//@ loop 3: invariant exp <= old(exp) && (exp == old(exp) ==> sig == old(sig))
+//@ loop 3: decreases exp
+//@ props C01 C02 C03 C05 C08 C10 C11 C20
+
+// reduce128: sig x 10^exp (+ theta, see TH) is brought into the format.
+// Preconditions on trunc are what every caller establishes: a caller that has
+// thrown digits away hands over a significand that still has to be divided
+// (trunc == 1: at least once, trunc == -1: at least by 100), otherwise the
+// first discarded digit would be invisible to the nearest modes.
+//@ func RoundingMode.reduce128
+//@ returns (rsig, rexp)
+//@ logical V real
+//@ requires V > 0 && rm <= 5 && -32000 <= exp && exp <= 32000
+//@ requires TH(rs(V, exp), u128(sig), trunc)
+//@ requires trunc == 1 ==> u128(sig) > M
+//@ requires trunc == -1 ==> sig[1] > 0x0019000000000000
+//@ ensures trunc >= 0 && rs(V, 0) < 0.1 ==> u128(rsig) == 0 && rexp == 0
+//@ ensures RndOK(rm, neg, rs(V, rexp), u128(rsig), rexp) || (u128(rsig) == 0 && rexp == 0 && rs(V, 0) < 0.1)
+//@ ensures rexp > 12287 ==> 10*u128(rsig) > M
+//@ ensures u128(rsig) <= M && rexp >= 0
+//@ ensures trunc == 0 && u128(sig) <= M && 0 <= exp && exp <= 12287 ==> rsig == sig && rexp == exp
+//@ loop 1: invariant RS(rs(V, exp), u128(sig), trunc, digit) || (digit == 0 && trunc >= 0 && TH(rs(V, exp), u128(sig), trunc) && (trunc != 0 ==> u128(sig) > M))
+//@ loop 1: invariant (digit != 0 || trunc != 0) ==> u128(sig) >= B110
+//@ loop 1: invariant (old(trunc) >= 0 ==> trunc >= 0) && (old(trunc) == 0 && u128(old(sig)) <= M ==> digit == 0 && trunc == 0 && sig == old(sig) && exp == old(exp))
+//@ loop 1: invariant (exp <= old(exp) + 5 && u128(sig) < 101*B110) || (exp <= old(exp) + 6 && u128(sig) < 11*B110) || (exp <= old(exp) + 7 && u128(sig) <= M)
+//@ loop 1: invariant exp >= old(exp)
+//@ loop 1: decreases u128(sig)
+//@ loop 2: invariant RS(rs(V, exp), u128(sig), trunc, digit) && u128(sig) <= M && -32000 <= exp && exp <= 32007
+//@ loop 2: invariant (digit != 0 || trunc != 0) ==> (u128(sig) >= B110 || exp <= 0)
+//@ loop 2: invariant (old(trunc) >= 0 ==> trunc >= 0) && (exp >= 0 && old(trunc) >= 0 ==> rs(V, exp) >= 0.1)
+//@ loop 2: invariant old(trunc) == 0 && u128(old(sig)) <= M && old(exp) >= 0 ==> digit == 0 && trunc == 0 && sig == old(sig) && exp == old(exp)
+//@ loop 2: decreases 0 - exp
+//@ loop 3: invariant ((RS(rs(V, exp), u128(sig), trunc, digit) && (old(trunc) >= 0 ==> rs(V, exp) >= 0.1)) || (u128(sig) == 0 && digit == 0 && trunc == 0 && exp == 0 && rs(V, 0) < 0.1))
+//@ loop 3: invariant u128(sig) <= M && 0 <= exp && exp <= 32007
+//@ loop 3: invariant (digit != 0 || trunc != 0) ==> (u128(sig) >= B110 || exp == 0)
+//@ loop 3: invariant old(trunc) == 0 && u128(old(sig)) <= M && old(exp) >= 0 && old(exp) <= 12287 ==> digit == 0 && trunc == 0 && sig == old(sig) && exp == old(exp)
+//@ loop 3: decreases exp
+//@ call RoundingMode.round: V = ite(u128(sig) == 0 && digit == 0 && trunc == 0, 0, V)
+//@ props C01 C02 C03 C05 C10 C11 C20
